@@ -469,6 +469,41 @@ def keepsAll : List PT → List (Chan × Option Chan) → Bool
   | p :: ps, cm => keeps p cm && keepsAll ps cm
 end
 
+mutual
+/-- every part of the template is actually played: durations and repetition counts are strictly positive, sequences
+and loop ranges are not empty.  `create_program` skips a constant / point template of duration 0, the body of a
+repetition with count 0 or of a loop with an empty range, and the scalar operand of an arithmetic template whose
+operand is empty, without looking at the expressions in there, so that the success of `denote` says nothing about
+whether they evaluate; under `positive` every expression of the template is evaluated on the way.
+Hypothesis of the definedness theorems only. -/
+def positive : PT → Scope → Bool
+  | .const _ dur _ _, σ => evalsTo σ dur (fun d => decide (0 < d))
+  | .table id entries meas cons, σ => match templateDuration (.table id entries meas cons) σ with
+      | .ok d => decide (0 < d)
+      | .error _ => false
+  | .point _ _ entries _ _, σ => match entries.getLast? with
+      | some e => evalsTo σ e.t (fun t => decide (0 < t))
+      | none => false
+  | .func _ _ dur _ _ _, σ => evalsTo σ dur (fun d => decide (0 < d))
+  | .seq _ subs _ _, σ => !subs.isEmpty && positiveAll subs σ
+  | .rep _ body count _ _, σ => evalsTo σ count (fun c => decide (0 < c)) && positive body σ
+  | .forLoop _ body idx start stop step _ _, σ =>
+      match σ.eval start, σ.eval stop, σ.eval step with
+      | .ok a, .ok b, .ok s =>
+          !(pyRange a.num b.num s.num).isEmpty &&
+          (pyRange a.num b.num s.num).all (fun (i : Int) => positive body (.range σ idx (i : Rat)))
+      | _, _, _ => false
+  | .mapping _ body pm _ _ _, σ => positive body (.mapped σ pm)
+  | .parallel _ body _, σ => positive body σ
+  | .atomicMulti _ subs _ _ _, σ => positiveAll subs σ
+  | .arith _ body _ _ _, σ => positive body σ
+  | .arithAtomic _ lhs _ rhs _, σ => positive lhs σ && positive rhs σ
+  | .timeReversal _ body, σ => positive body σ
+def positiveAll : List PT → Scope → Bool
+  | [], _ => true
+  | p :: ps, σ => positive p σ && positiveAll ps σ
+end
+
 /-- documented classes on the initial / final path of a template -/
 inductive Tag where
   /-- PF-09: `ForLoopPulseTemplate.final_values` evaluates the body at an index that is not the last one -/
@@ -589,7 +624,8 @@ mutual
 /-- templates of all thirteen classes (function templates affine in `t`, scalar operands of arithmetic templates
 independent of `t`) that satisfy what
 the constructors of the real classes enforce: amplitude keys are distinct (a `dict`), all parts of a sequence
-define the same channels, a channel mapping is total on the body's channels and injective on the kept ones -/
+define the same channels, an atomic multi channel template has at least one part and its parts define disjoint
+channels, a channel mapping is total on the body's channels and injective on the kept ones -/
 def supported : PT → Bool
   | .const _ _ amps _ => !hasDup (amps.map (·.1))
   | .table .. => true
@@ -604,7 +640,7 @@ def supported : PT → Bool
       !hasDup body.definedChannels
   | .timeReversal _ body => supported body
   | .parallel _ body over => supported body && !hasDup (over.map (·.1))
-  | .atomicMulti _ subs _ _ _ => supportedAll subs && !hasDup (PT.allChannels subs)
+  | .atomicMulti _ subs _ _ _ => supportedAll subs && (!hasDup (PT.allChannels subs) && !subs.isEmpty)
   | .arith _ body _ scalar _ =>
       supported body && !scalarTimeDependent scalar &&
       (match scalar with
